@@ -32,9 +32,12 @@ def font (req : Json) : R Reply := do
   let o : Opts := { convertCubics := ← asBool (← field i "convertCubics"),
                     reverseDirection := ← asBool (← field i "reverseDirection"),
                     flatten := ← asBool (← field i "flatten") }
+  let skip ← match i.getObjVal? "skip" with
+    | .ok j => asList asStr j
+    | .error _ => pure []
   let obs ← field req "obs"
   let oerr ← asOpt asStr (← field obs "err")
-  match preprocess o gs with
+  match preprocessSkip o skip gs with
   | .error e => return { model := Json.mkObj [("err", gerrJ e)], holds := oerr.isSome }
   | .ok pre =>
     let outs := pre.map (fun (n, g) => glyphOutJ n (g.contours.any hasCubic) (ttGlyph o g))
@@ -51,9 +54,13 @@ def font (req : Json) : R Reply := do
       let odp ← asNat (← field mpo "depth")
       let mut bad : List String := []
       let mut shadow : GlyphSet := []   -- the observed component structure, for the maxp check
+      -- every exported source glyph is in the compiled font, no skipped one is
+      for n in gs.names do
+        if !skip.contains n && !order.contains n then bad := bad ++ [n]
       for j in og do
         let n ← asStr (← field j "name")
         let kind ← asStr (← field j "kind")
+        if skip.contains n then bad := bad ++ [n]
         match gs.get? n with
         | none =>
           if n != ".notdef" then bad := bad ++ [n]
@@ -68,11 +75,15 @@ def font (req : Json) : R Reply := do
               let dev ← asRat (← field j "maxdev")
               let tol ← asRat (← field j "tol")
               if !(cs.length == r.length && decide (dev ≤ tol)) then bad := bad ++ [n]
+            else if !skip.isEmpty then
+              if !(holdsSimpleSkip o gs g cs) then bad := bad ++ [n]
             else if !(holdsSimple o gs g cs && !(isMixedOrSimple g == false)) then bad := bad ++ [n]
           else
             let ks ← asList asTTComp (← field j "comps")
             shadow := shadow ++ [(n, ⟨n, 0, 0, [], ks.map (fun k => ⟨k.base, Affine.id⟩), []⟩)]
-            if !(holdsComposite gs g o.flatten ks order && !isMixedOrSimple g) then bad := bad ++ [n]
+            if !skip.isEmpty then
+              if !(holdsCompositeSkip skip gs g ks order) then bad := bad ++ [n]
+            else if !(holdsComposite gs g o.flatten ks order && !isMixedOrSimple g) then bad := bad ++ [n]
       let smp := maxp shadow
       let okMaxp := oel == smp.maxComponentElements && odp == smp.maxComponentDepth
       if !okMaxp then bad := bad ++ ["<maxp>"]
